@@ -72,7 +72,7 @@ void  br_entry_touch(void *e);                  /* last_activity = now (s) */
 size_t br_st_sizeof(void);
 const void *br_st_raw(void *t);                 /* for bitwise "undisturbed" comparison */
 
-int   br_derive_session_event(const void *frame, void *table, const uint8_t *our_mac);
+int   br_derive_session_event(const void *frame, size_t len, void *table, const uint8_t *our_mac);
 
 /* ---- tick ---- */
 typedef void (*br_send_hello_fn)(void *user);
@@ -97,7 +97,7 @@ typedef struct br_darwin {
 } br_darwin;
 int   br_darwin_init(br_darwin *d);   /* 0 ok; -1 if a constructor returned NULL (everything released) */
 void  br_darwin_destroy(br_darwin *d);
-void  br_darwin_rx(br_darwin *d, void *frame);   /* one received frame, incl. the trailing tick */
+void  br_darwin_rx(br_darwin *d, void *frame, size_t len);   /* one received frame (recvfrom length len), incl. the trailing tick */
 void  br_darwin_idle_tick(br_darwin *d);         /* receive timeout path */
 /* Linux loop flow: raw opcode into mapping/session automata, then parseFrame */
 void  br_linux_rx(void *mapping, void *session, void *frame, void *ctx);
